@@ -324,6 +324,32 @@ func c03BufferReuse(c *fw.Ctx) {
 	}
 }
 
+// c03HugeLimitReader: the reader path with limits above 16 MiB: every detector must be given
+// exactly the first `limit` bytes and that limit.
+func c03HugeLimitReader(c *fw.Ctx) {
+	st := c03Setup(nil)
+	defer st.restore()
+	for _, L := range []int{1<<24 + 5, 3<<23 + 4099} {
+		x := bytes.Repeat([]byte("sixteen byte ln\n"), (L+(9<<20))/16)
+		st.trace = st.trace[:0]
+		mimetype.SetLimit(uint32(L))
+		key := fw.InputKey(x[:64], uint32(L), "DetectReader/huge-limit")
+		pl := c03Payload{In: x[:64], Limit: uint32(L), Entry: "buffer-reuse", InQ: "16-byte text lines"}
+		if !c.Guard(key, func() any { return pl }, func() { mimetype.DetectReader(bytes.NewReader(x)) }) {
+			continue
+		}
+		c.Eval(1)
+		c.Count("reader_walks_with_limits_above_16_MiB", 1)
+		for i, e := range st.trace {
+			if e.n != L || e.limit != uint32(L) {
+				c.Violate("trace-args", key, fmt.Sprintf("DetectReader with limit %d on a %d-byte input: detector call #%d (%s) was given a %d-byte header and limit %d", L, len(x), i, st.t.Nodes[e.id].MIME, e.n, e.limit), pl)
+				break
+			}
+		}
+	}
+	mimetype.SetLimit(3072)
+}
+
 // c03FaultyDetector: a detector registered with Extend that panics on some inputs. If the
 // library lets the panic reach the caller, nothing is asserted. If it returns a result, that
 // result must be the first-match walk of the tree in which the faulty detector does not
@@ -622,6 +648,7 @@ func c03Run(c *fw.Ctx, b fw.Batch) {
 	if b.Kind == "buffer-reuse" {
 		c03BufferReuse(c)
 		c03FaultyDetector(c)
+		c03HugeLimitReader(c)
 		return
 	}
 	r := c.Rand
